@@ -56,8 +56,28 @@ Chains == {
   P("chain", Pre \o <<SLet("Bundle", "d", Bin("AND", Bin(">>", BB, Num(1)), Num(1)))>>),
   P("chain", Pre \o <<SLet("Bundle", "d", Bin("%", BB, Num(3))), SLet("Bundle", "e", Bin("/", BB, Num(-2)))>>)
  }
+\* operations that differ ONLY in which member of one bundle they read (same operator, other operand and output type)
+SA == Sel(BB, "signal-A")  SB == Sel(BB, "signal-B")  SC == Sel(BB, "signal-C")
+SelPairs == {
+  P("selpair", Pre \o <<SLet("Signal", "x", Bin("+", S, SA)), SLet("Signal", "y", Bin("+", S, SB))>>),
+  P("selpair", Pre \o <<SLet("Signal", "x", Bin("*", S, SB)), SLet("Signal", "y", Bin("*", S, SC))>>),
+  P("selpair", Pre \o <<SLet("Signal", "x", CondE(Bin(">", SA, Num(1)), S)), SLet("Signal", "y", CondE(Bin(">", SB, Num(1)), S))>>),
+  P("selpair", Pre \o <<SLet("Signal", "x", CondE(Bin(">", AnyE(BB), Num(5)), S)), SLet("Signal", "y", CondE(Bin(">", AllE(BB), Num(5)), S))>>),
+  P("selpair", Pre \o <<SLet("Signal", "x", Proj(SA, TName("signal-X"))), SLet("Signal", "y", Proj(SB, TName("signal-X")))>>),
+  P("selpair", Pre \o <<SLet("Signal", "x", Bin(">", SA, Num(0))), SLet("Signal", "y", Bin(">", SC, Num(0))), SLet("Signal", "z", Bin(">", SB, Num(0)))>>),
+  P("selpair", Pre \o <<SLet("Signal", "x", Bin("-", SA, SB)), SLet("Signal", "y", Bin("-", SA, SC))>>)
+ }
+\* chains of each-operations with constants where the INTERMEDIATE bundle is observed as well (directly, through another
+\* operation, a selection, a filter): folding the chain must not change the intermediate
+ChainOps == {"+", "*", "AND", "OR", "XOR", "-"}
+NamedChains == {P("nchain", Pre \o <<SLet("Bundle", "d", Bin(op, BB, Num(2))), SLet("Bundle", "r", Bin(op, Ref("d"), Num(3))), SLet("Bundle", "e", Bin("+", Ref("d"), Num(1)))>>) : op \in ChainOps}
+   \cup {P("nchain", Pre \o <<SLet("Bundle", "d", Bin(op, BB, Num(2))), SLet("Bundle", "r", Bin(op, Ref("d"), Num(3))), SLet("Signal", "e", Sel(Ref("d"), "signal-A"))>>) : op \in {"+", "*", "OR"}}
+   \cup {P("nchain", Pre \o <<SLet("Bundle", "d", Bin(op, BB, Num(2))), SLet("Bundle", "r", Bin(op, Ref("d"), Num(3)))>>) : op \in {"+", "*"}}
+   \cup {P("nchain", Pre \o <<SLet("Bundle", "d", Bin("*", BB, Num(2))), SLet("Bundle", "r", Bin("*", Ref("d"), Num(3))), SLet("Bundle", "e", CondE(Bin(">", Ref("d"), Num(4)), Ref("d")))>>),
+         P("nchain", Pre \o <<SLet("Bundle", "r", Bin("*", Bin("*", BB, Num(2)), Num(3)))>>),
+         P("nchain", Pre \o <<SLet("Bundle", "d", Bin("+", BB, Num(2))), SLet("Bundle", "r", Bin("+", Ref("d"), Num(3))), SLet("Signal", "e", Bin(">", AnyE(Ref("d")), Num(8)))>>)}
 \* (gating a bundle by a scalar condition is not a documented bundle operation and not part of C02: Gates is not generated)
-All == EachOps \cup Filters \cup Quants \cup Sels \cup Lits \cup Chains
+All == EachOps \cup Filters \cup Quants \cup Sels \cup Lits \cup Chains \cup SelPairs \cup NamedChains
 ASSUME PrintT(<<"NPROGS", Cardinality(All)>>)
 ASSUME JsonSerialize(IOEnv.GEN_OUT, SetToSeq(All))
 =============================================================================
